@@ -13,12 +13,12 @@ import (
 
 // C06 — infix blocks mean what the precedence table says.
 
-const c06prelude = `(def a 7) (def b 3) (def c 2) (def i 1) (def v [10 20 30]) (defn f [x] (+ x 100)) (def tr [])
+const c06prelude = `(def a 7) (def b 3) (def c 2) (def i 1) (def u [1 0 2]) (def v [10 20 30]) (defn f [x] (+ x 100)) (def tr [])
 (defn tt [k x] (begin (set tr (append tr k)) x)) (def w [(hash e: 5)]) (def h (hash e: 4 f: (hash g: 1))) (defn mk [x] (hash e: x))`
 
 var c06binops = []string{"=", ":=", "+=", "-=", ",", "and", "or", "==", "!=", "<", "<=", ">", ">=", "+", "-", "*", "/", "mod", "**"}
 var c06levelOps = []string{"=", ",", "and", "or", "==", "<", "+", "-", "*", "/", "**"}
-var c06operandsFull = []string{"a", "b", "1", "2", "-1", "2.5", "1e3", "(f a)", "(tt 1 4)", "v[1]", "v[i]", "v[1:2]", "v[:2]", "v[1:]", "not a", "{ b * 2 }", "v[i+1]", "w[0].e", "h.e", "h.f.g", "(mk 3).e"}
+var c06operandsFull = []string{"a", "b", "1", "2", "-1", "2.5", "1e3", "(f a)", "(tt 1 4)", "v[1]", "v[i]", "v[1:2]", "v[:2]", "v[1:]", "not a", "{ b * 2 }", "v[i+1]", "w[0].e", "h.e", "h.f.g", "(mk 3).e", "v[u[0]]", "v[not a]", "v[u[i]+1]"}
 var c06operandsSmall = []string{"a", "1", "-1", "(tt 1 4)", "v[1]", "w[0].e"}
 var c06operandsTiny = []string{"a", "2", "-1"}
 
@@ -208,7 +208,7 @@ func init() {
 	engine.Register(&engine.Check{
 		ID:    "C06",
 		Level: "exploration",
-		Rule: "every alternating sequence operand (op operand)^n: n=1 over 21 operands x 19 binary operators x 4 spacings; n=2 over 6 operands x 19^2 operators x 16 spacings; n=3 over 3 operands x 11^3 level-representative operators in 2 uniform spacings (thorough: 5 operands, 4 uniform spacings, n=4 over 2 operands x 11^4); " +
+		Rule: "every alternating sequence operand (op operand)^n: n=1 over 24 operands x 19 binary operators x 4 spacings; n=2 over 6 operands x 19^2 operators x 16 spacings; n=3 over 3 operands x 11^3 level-representative operators in 2 uniform spacings (thorough: 5 operands, 4 uniform spacings, n=4 over 2 operands x 11^4); " +
 			"postfix ++/--, statement lists with ; / newline / blank separators; the expansion printed by (infixExpand {...}) must equal an independent tokeniser + precedence-climbing parse (R3), and the block's value and effects must equal those of the prefix form; " +
 			"17 go-style for/if/assignment programs x 3 layouts against hand-written prefix programs; distinct_nontrivial = distinct expansions",
 		Assumptions: []string{"R3 encodes the binding powers and associativity stated in the property and the documented sign rule for -digit",
